@@ -357,7 +357,9 @@ pub fn model_accepts(c: &Creation) -> bool {
 }
 
 const NAME_POOL: &[&str] = &["m", "req_total", "a:b", ":x", "_y", "é", "mé", "9m", "m9", "", "m-1", "m 1", "M", "ｍ", "m\u{301}", "٣x", "x٣"];
-const LABEL_POOL: &[&str] = &["l", "le", "a", "a_1", "_a", "1a", "", "l:1", "é", "lé", "l-1", "L", "le ", "٣", "a٣", "__n", ":", "a:", ":a", "a.b", "a\u{0}"];
+// ("a:b", ":x" and "m9" are also in NAME_POOL: a string that was accepted as a metric name earlier on
+// the same thread must still be refused as a label name if it is not one)
+const LABEL_POOL: &[&str] = &["l", "le", "a", "a_1", "_a", "1a", "", "l:1", "é", "lé", "l-1", "L", "le ", "٣", "a٣", "__n", ":", "a:", ":a", "a.b", "a\u{0}", "a:b", ":x", "a:b", "m9"];
 const HELP_POOL: &[&str] = &["help", "", " ", "h\nh"];
 
 fn gen_creation(r: &mut Rng) -> Creation {
